@@ -55,6 +55,21 @@ type Ctx struct {
 	paths     int
 	floors    map[string][2]int // rule -> {found, floor}
 	extra     map[string]interface{}
+	// sharing obligations of another property (see shared): only the rules listed are kept, under
+	// their new names
+	ruleRename map[string]string
+}
+
+// shared runs the obligations of another property's check function inside this property, keeping
+// only the rules named in rename (old rule name -> rule name in this property). The other property's
+// explanation / assumptions are not taken over.
+func (c *Ctx) shared(from func(*Ctx), rename map[string]string) {
+	expl, nd, as := c.Explanation, c.NotDecided, c.Assumptions
+	prev := c.ruleRename
+	c.ruleRename = rename
+	from(c)
+	c.ruleRename = prev
+	c.Explanation, c.NotDecided, c.Assumptions = expl, nd, as
 }
 
 func newCtx(p *Program, prop, tier string, known []KnownFinding) *Ctx {
@@ -63,6 +78,13 @@ func newCtx(p *Program, prop, tier string, known []KnownFinding) *Ctx {
 }
 
 func (c *Ctx) add(status, rule, key string, pos token.Pos, msg string, trail ...string) *Obligation {
+	if c.ruleRename != nil {
+		nr, keep := c.ruleRename[rule]
+		if !keep {
+			return &Obligation{}
+		}
+		rule = nr
+	}
 	o := &Obligation{Rule: c.Prop + "." + rule, Key: key, Status: status, Pos: c.pos(pos), Msg: msg, Trail: trail}
 	c.Obls = append(c.Obls, o)
 	return o
@@ -93,6 +115,22 @@ func (c *Ctx) check(cond bool, rule, key string, pos token.Pos, okMsg, badMsg st
 // floor asserts that a rule matched at least min constructs; a rule that matches nothing must
 // not pass vacuously.
 func (c *Ctx) floor(rule string, found, min int) {
+	if c.ruleRename != nil {
+		nr, keep := c.ruleRename[rule]
+		if !keep {
+			return
+		}
+		rule = nr
+		c.floors[c.Prop+"."+rule] = [2]int{found, min}
+		if found < min {
+			prev := c.ruleRename
+			c.ruleRename = nil
+			c.bad(rule, "floor", token.NoPos,
+				fmt.Sprintf("rule matched %d construct(s), at least %d were confirmed by hand on the reference tree: a required construct has disappeared or no longer has the expected shape", found, min))
+			c.ruleRename = prev
+		}
+		return
+	}
 	c.floors[c.Prop+"."+rule] = [2]int{found, min}
 	if found < min {
 		c.bad(rule, "floor", token.NoPos,
